@@ -1,0 +1,19 @@
+//go:build verif
+
+package spec
+
+import "sync/atomic"
+
+// Verification hooks (build tag "verif"): a step counter incremented at the
+// entry of the recursive expansion/resolution functions, used by the
+// termination property check to bound the work of an expansion.
+
+var verifSteps int64
+
+func verifStep() { atomic.AddInt64(&verifSteps, 1) }
+
+// VerifSteps returns the number of expansion/resolution steps counted so far.
+func VerifSteps() int64 { return atomic.LoadInt64(&verifSteps) }
+
+// VerifResetSteps resets the step counter.
+func VerifResetSteps() { atomic.StoreInt64(&verifSteps, 0) }
